@@ -51,6 +51,11 @@ def tool_env(home):
     return e
 
 
+EXT_HELPER_PARTS = "pub mod inner { pub struct Salt { pub id: u64 } }\npub use inner::Salt;\n"
+# the same public API (`helper::Salt`) defined in a module of another name: the path pavexc prints for the type changes
+EXT_HELPER_PARTS_V2 = "pub mod core2 { pub struct Salt { pub id: u64 } }\npub use core2::Salt;\n"
+
+
 class Workspace:
     def __init__(self, root, modules, target_dir=None):
         """modules: {name: rust source of app/src/<name>.rs}"""
@@ -92,8 +97,13 @@ class Workspace:
                     "pub mod inner { pub struct Salt { pub id: u8 } }\n")
         with open(os.path.join(r, "ext", "helper", "Cargo.toml"), "w") as f:
             f.write("[package]\nname = \"helper\"\nversion = \"2.0.0\"\nedition = \"2024\"\n")
+        # the items of the crate outside the workspace live in a file that is NOT a `.rs` file and is pulled in with
+        # `include!`: its documentation is cached by pavexc under a checksum of the crate's sources, which has to cover
+        # that file too (C10: the history `edit-included-source` rewrites it between two runs)
         with open(os.path.join(r, "ext", "helper", "src", "lib.rs"), "w") as f:
-            f.write("#![doc(html_root_url = \"https://docs.rs/helper/2.0.0\")]\npub mod inner { pub struct Salt { pub id: u64 } }\npub use inner::Salt;\n")
+            f.write("#![doc(html_root_url = \"https://docs.rs/helper/2.0.0\")]\ninclude!(\"parts.inc\");\n")
+        with open(os.path.join(r, "ext", "helper", "src", "parts.inc"), "w") as f:
+            f.write(EXT_HELPER_PARTS)
         with open(os.path.join(r, "app", "src", "rt.rs"), "w") as f:
             f.write(gen_app.RT_RS)
         with open(os.path.join(r, "app", "src", "lib.rs"), "w") as f:
